@@ -56,7 +56,7 @@ def run(ctx):
         res.sample({"sid": sid, "world": s["world"], "cap": s["cap"],
                     "fetches": [{k: f[k] for k in ("url", "kind", "budget", "res", "reqs")} for f in s["fetches"]]})
     res.extra["sessions_from_tlc"] = len(sessions)
-    v = r2.json_lines("VERDICT")[-1]
+    v = r2.verdict
     res.extra["drift_fetches_differing_from_GetM"] = len(v.get("drift", []))
     res.assumptions = ["responses with both a tolerated and a foreign Content-Type may be accepted or refused",
                        "servers are unchanged within a session", "budgets 0-4 through jtp.Get directly; client.FetchURL's budget of 20 is exercised by the C02/C09 drivers"]
